@@ -87,6 +87,25 @@ CHECKS = {
         note="Trusted base: Hypothesis, own Fraction Gaussian elimination, sympy's Groebner normal form applied to Polar's output. Bounds: k<=4, D<=3, rational bases only.",
         design="DESIGN.md section 4 C07",
     ),
+    "C03": dict(
+        technique="property-based testing: generated programs, recurrence systems checked against the exact one-step expectations of the reference interpreter",
+        text="Generated-input search: for every monomial of the system returned by RecBuilder.get_recurrences the equation E(M)(n+1) = sum c_i E(M_i)(n) + c is "
+             "evaluated exactly (n=0..3) on the distribution computed by the reference interpreter from the normal form, the recorded initial value is compared with "
+             "E(M)(0), closure of the system is checked by an own term walk, and the matrix/vector form is compared with the dict form. Isolates recurrence "
+             "construction from solving (C04) and normalisation (C02).",
+        note=TRUSTED + " The normal form is read back through lib/snapshot.py (field structure only). Systems up to ~40 monomials, goal degree <= 3; default settings and cond2arithm.",
+        design="DESIGN.md section 4 C03",
+    ),
+    "C05": dict(
+        technique="property-based testing: generated programs, reachable value sets from the exact reference interpreter (value-collecting mode) against the inferred Finite types",
+        text="Generated-input search: programs with guards that become false, repeated assignments and branches are normalised under type_fp_iterations in {1,2,3,10,100}; "
+             "the normal form and the source are interpreted exactly for n=0..8 collecting every value every variable (original and auxiliary) holds after each executed "
+             "assignment; each must lie in the inferred Finite type. The consequence clause is checked directly: reduce_power(k) and every arithmetised condition "
+             "evaluate correctly on all collected values / states.",
+        note=TRUSTED + " Auxiliary variables Polar leaves uninitialised get marker values (two runs with different markers); marker-dependent values of auxiliaries are "
+             "'undefined' and not judged, original variables are always judged. n<=8.",
+        design="DESIGN.md section 4 C05",
+    ),
 }
 
 PENDING = {}
